@@ -73,19 +73,20 @@ func contents(nc int, rng *rand.Rand) []content {
 }
 
 type run struct {
-	net    *quiet.Net
-	n      *quiet.Node
-	name   string
-	b      int
-	dir    string
-	snap   string
-	nsnap  int
-	cont   []content
-	mark   int
-	qids   map[uint32]int // raw id of a locally issued query -> 100 + order of appearance
-	nlq    int
-	re, rq int // what the snapshot file held at the last restart (-1: nothing)
+	net      *quiet.Net
+	n        *quiet.Node
+	name     string
+	b        int
+	dir      string
+	snap     string
+	nsnap    int
+	cont     []content
+	mark     int
+	qids     map[uint32]int // raw id of a locally issued query -> 100 + order of appearance
+	nlq      int
+	re, rq   int // what the snapshot file held at the last restart (-1: nothing)
 	withSnap bool
+	npeer    int
 }
 
 func (r *run) create() {
@@ -232,10 +233,14 @@ func (r *run) state() map[string]interface{} {
 		}
 		qb = append(qb, sl)
 	}
+	ji := 0
+	if d.JoinIgnore {
+		ji = 1
+	}
 	return map[string]interface{}{
 		"ec": down(d.EventClock), "emin": down(d.EventMin), "ebuf": eb,
 		"qc": down(d.QueryClock), "qmin": down(d.QueryMin), "qbuf": qb,
-		"re": r.re, "rq": r.rq,
+		"re": r.re, "rq": r.rq, "ji": ji,
 	}
 }
 
@@ -245,6 +250,62 @@ func (r *run) observe(q [][]byte) map[string]interface{} {
 	o["dl"] = r.events()
 	o["rb"] = rb
 	return o
+}
+
+// observeFiltered: like observe, but membership broadcasts (the join intent Serf.Join queues) are not listed
+func (r *run) observeFiltered(q [][]byte) map[string]interface{} {
+	var keep [][]byte
+	for _, b := range q {
+		if len(b) > 0 && (int(b[0]) == quiet.TUserEvent || int(b[0]) == quiet.TQuery) {
+			keep = append(keep, b)
+		}
+	}
+	return r.observe(keep)
+}
+
+// realJoin: a second real quiet node on the same network is brought into the state the action describes (event
+// clock, query clock, event buffer) by feeding it, then the node under test calls the real Serf.Join on it:
+// memberlist's push/pull hands the peer's LocalState to MergeRemoteState(isJoin = true).
+func (r *run) realJoin(st h.Step) {
+	r.npeer++
+	peer, err := quiet.NewNode(r.net, fmt.Sprintf("peer-%d", r.npeer), nil, func(c *serf.Config) {
+		c.EventBuffer = 64
+		c.QueryBuffer = 64
+	})
+	if err != nil {
+		h.Die("peer: %v", err)
+	}
+	for _, s := range st.List("evs") {
+		sr := h.Step(s.(map[string]interface{}))
+		for _, k := range sr.Ints("ks") {
+			peer.Del.NotifyMsg(r.userEventMsg(sr.Int("lt"), k))
+		}
+	}
+	peer.Del.MergeRemoteState(quiet.Encode(quiet.TPushPull, quiet.MsgPushPull{StatusLTimes: map[string]uint64{}, LeftMembers: []string{},
+		EventLTime: up(st.Int("elt")), QueryLTime: up(st.Int("qlt"))}), false)
+	pp, err := peer.PushPullState(false)
+	if err != nil {
+		h.Die("peer state: %v", err)
+	}
+	got := 0
+	for _, e := range pp.Events {
+		if e != nil {
+			got += len(e.Events)
+		}
+	}
+	want := 0
+	for _, s := range st.List("evs") {
+		want += len(h.Step(s.(map[string]interface{})).Ints("ks"))
+	}
+	if down(pp.EventLTime) != st.Int("elt") || down(pp.QueryLTime) != st.Int("qlt") || got != want {
+		h.Die("peer could not be brought into the state of %v: event clock %d query clock %d events %d", st,
+			down(pp.EventLTime), down(pp.QueryLTime), got)
+	}
+	n, err := r.n.Serf.Join([]string{peer.Tr.Addr()}, st.Int("ign") == 1)
+	if err != nil || n != 1 {
+		h.Die("Join: n=%d err=%v", n, err)
+	}
+	_ = peer.Serf.Shutdown()
 }
 
 // recorded reads what the snapshot file holds: the last event-clock / query-clock lines.
@@ -330,12 +391,19 @@ func (r *run) step(st h.Step) map[string]interface{} {
 	case "qry":
 		r.n.Del.NotifyMsg(r.queryMsg(st.Int("lt"), st.Int("id"), st.Int("nb"), st.Int("flt")))
 	case "merge":
+		// ign = 1: the merge happens inside the window of a Serf.Join(ignoreOld = true) (flag set and cleared as Join
+		// does); ign = 0: the flag is left as the node itself keeps it
 		buf := r.pushPull(st)
 		if st.Int("ign") == 1 {
 			r.n.Serf.VerifSetJoinIgnore(true)
 		}
 		r.n.Del.MergeRemoteState(buf, st.Int("join") == 1)
-		r.n.Serf.VerifSetJoinIgnore(false)
+		if st.Int("ign") == 1 {
+			r.n.Serf.VerifSetJoinIgnore(false)
+		}
+	case "join":
+		r.realJoin(st)
+		return r.observeFiltered(r.n.Drain())
 	case "uev":
 		c := r.cont[st.Int("k")]
 		if err := r.n.Serf.UserEvent(c.name, c.payload, false); err != nil {
